@@ -694,6 +694,7 @@ impl ParserListener for Screen {
                 self.insert_characters(Some(char_width as u32));
             }
 
+            let default_char = self.default_char();
             let line = self
                 .buffer
                 .entry(self.cursor.y)
@@ -715,18 +716,18 @@ impl ParserListener for Screen {
                     );
                 }
             } else if char_width == 0 && is_combining_mark(char) {
+                // A never-written cell is a blank like any other.
                 if self.cursor.x > 0 {
-                    if let Some(last) = line.get_mut(&(self.cursor.x - 1)) {
-                        last.data = last.data.nfc().collect::<String>() + &char.to_string();
-                    }
+                    let last = line.entry(self.cursor.x - 1).or_insert(default_char);
+                    last.data = last.data.nfc().collect::<String>() + &char.to_string();
                 } else if self.cursor.y > 0 {
-                    if let Some(last) = self
+                    let last = self
                         .buffer
-                        .get_mut(&(self.cursor.y - 1))
-                        .and_then(|l| l.get_mut(&(self.columns - 1)))
-                    {
-                        last.data = last.data.nfc().collect::<String>() + &char.to_string();
-                    }
+                        .entry(self.cursor.y - 1)
+                        .or_insert_with(HashMap::new)
+                        .entry(self.columns - 1)
+                        .or_insert(default_char);
+                    last.data = last.data.nfc().collect::<String>() + &char.to_string();
                 }
             } else {
                 // Unprintable character or doesn't advance the cursor:
